@@ -4,12 +4,16 @@ package clause
 
 import (
 	"strings"
+
+	"gitee.com/xuesongtao/protoc-go-valid/valid"
 )
 
-const (
-	Sep     = "; "
-	LabelEn = "explain:"
-	LabelZh = "说明:"
+// The separator and the two explanation labels are exported by the library (ErrEndFlag, ExplainEn,
+// ExplainZh); the parser follows them instead of pinning their text.
+var (
+	Sep     = valid.ErrEndFlag
+	LabelEn = valid.ExplainEn
+	LabelZh = valid.ExplainZh
 )
 
 // Kind of clause.
